@@ -219,7 +219,7 @@ def _dispatch(Q, hook, *a):
 class MonMixin:
     """overrides call super() and only read state / append to the trace"""
 
-    def accept(self, ind, completed=False):
+    def accept(self, ind, *args, **kwargs):
         Q = self.simulation
         tr = Q.tr
         tr.seq += 1
@@ -228,7 +228,7 @@ class MonMixin:
         tr.visits.setdefault(ind.id_number, []).append(v)
         ctx = {}
         _dispatch(Q, "pre_accept", self, ind, ctx)
-        super().accept(ind, completed)
+        super().accept(ind, *args, **kwargs)
         _dispatch(Q, "post_accept", self, ind, ctx)
 
     def attach_server(self, server, individual):
@@ -416,6 +416,7 @@ class MonSimulation(ciw.Simulation):
     def event_and_return_nextnode(self, next_active_node):
         ex = E.EX
         tr = self.tr
+        _dispatch(self, "pre_any_event", next_active_node)
         if tr.event_no >= self.K:
             raise E.Abort()
         tr.event_no += 1
